@@ -72,14 +72,14 @@ _NOT_COVERED_BLOCKS = ['derive-generated sync work(): only a BOUNDED drip-feed s
 _BU = ['skip', 'delay', 'vsrc', 'v2s', 'consts', 'resampler', 'rtlsdr', 's2pdu', 'hilbert', 'fftstream', 'fftfilter']
 _FIR = ['fir']
 P['C08'] = {
-    'units': list(_BU) + _FIR + ['zc', 'bx:sync', 'bx:dsp'],
+    'units': list(_BU) + _FIR + ['zc', 'symsync', 'bx:sync', 'bx:dsp'],
     'technique': 'Verus: each covered work() proved to preserve out.produced == F(in.consumed) under a stream-API contract with a universally quantified environment (any window lengths)',
     'level_text': 'Deductive proof for a stated subset of blocks (Skip, Delay with constructor delay, VectorSource, VecToStream, ConstantSource, NullSink): the invariant dst.produced == F(src.consumed) holds after every work() call for every read-window extension and every write-window length, hence for every chunking and every amount of free output space; every panic site (refuse, overflow, slice bounds, callee preconditions) in those bodies is unreachable. All other blocks are NOT decided.',
     'level_note': 'Subset only; see coverage.not_covered. Trusted: stream-API contract (stream_prelude.vx), std shims. A change in an uncovered block is invisible to this check.',
     'not_covered': _NOT_COVERED_BLOCKS, 'assumptions': _BLOCK_ASSUME,
 }
 P['C09'] = {
-    'units': list(_BU) + _FIR + ['zc', 'sigmf', 'hdlc', 'fsrc', 'fsink', 'tcp', 'au', 'bx:sync', 'bx:dsp'],
+    'units': list(_BU) + _FIR + ['zc', 'symsync', 'sigmf', 'hdlc', 'fsrc', 'fsink', 'tcp', 'au', 'bx:sync', 'bx:dsp'],
     'technique': 'Verus: call-site preconditions of consume/produce (n <= window, window belongs to the stream, not stale) and verdict postconditions on each covered work()',
     'level_text': 'Deductive proof for the same subset: every consume/produce call site stays within its window; WaitForStream(s, need) is returned only when stream s offered fewer than need in this call; Again only from a call that consumed or produced; an empty input window yields a wait on the input. No window escapes work() (windows are moved into consume/produce or dropped; checked syntactically by rule X-WIN).',
     'level_note': 'Subset only. "holds no window after return" is a syntactic check of the extractor, stated as such.',
@@ -100,7 +100,7 @@ P['C12'] = {
     'not_covered': _NOT_COVERED_BLOCKS + ['FirFilter / FftFilter / Hilbert tag forwarding'], 'assumptions': _BLOCK_ASSUME,
 }
 P['C15'] = {
-    'units': ['skip', 'delay', 'v2s', 'fir', 'resampler', 'rtlsdr', 's2pdu', 'hilbert', 'fftstream', 'fftfilter', 'zc', 'sigmf', 'wpcr', 'hdlc', 'tcp', 'au', 'auenc', 'kani:lfsr', 'kani:hdlc', 'kani:codecs', 'bx:dsp'],
+    'units': ['skip', 'delay', 'v2s', 'fir', 'resampler', 'rtlsdr', 's2pdu', 'hilbert', 'fftstream', 'fftfilter', 'zc', 'symsync', 'sigmf', 'wpcr', 'hdlc', 'tcp', 'au', 'auenc', 'kani:lfsr', 'kani:hdlc', 'kani:codecs', 'bx:dsp'],
     'technique': 'Verus panic-freedom obligations (refuse/overflow/bounds/callee preconditions unreachable for arbitrary sample values) + Kani totality harnesses over all input bytes',
     'level_text': 'Deductive proof for a stated subset: in the covered work() bodies no panic site is reachable for any sample values; bits2byte, calc_crc (lengths 1..2, thorough ..4) and the codecs\' parse never panic for any byte values; the two LFSR steps are checked for every input byte.',
     'level_note': 'Subset only: AuDecode header arithmetic, HdlcDeframer::update_state, wpcr, sigmf, StreamToPdu, symbol sync, zero crossing are not decided.',
